@@ -24,6 +24,16 @@ INT_FUNCS = {"len", "int", "ord", "hash", "round", "abs", "sum", "min", "max", "
 CONTAINERS = {"List", "Dict", "Set", "Tuple", "Sequence", "Mapping", "Iterable", "Iterator", "Generator", "DefaultDict", "Deque", "FrozenSet", "list", "dict", "set", "tuple", "defaultdict", "deque", "frozenset", "Callable", "Type"}
 
 
+def _local_annotation(n, name):
+    """annotation of a local that the normaliser turned from `x: T = v` into `x = v` (kept as the assignment's type comment)"""
+    if isinstance(n, ast.Assign) and len(n.targets) == 1 and isinstance(n.targets[0], ast.Name) and n.targets[0].id == name and getattr(n, "type_comment", None):
+        try:
+            return ast.parse(n.type_comment, mode="eval").body
+        except SyntaxError:
+            return None
+    return None
+
+
 class Typer:
     def __init__(self, repo, ev):
         self.repo, self.ev = repo, ev
@@ -145,6 +155,8 @@ class Typer:
             for n in A.body_nodes(fn):
                 if isinstance(n, ast.AnnAssign) and isinstance(n.target, ast.Name) and n.target.id == e.id:
                     return n.annotation
+                if _local_annotation(n, e.id) is not None:
+                    return _local_annotation(n, e.id)
             vals = [v for v in A.assigned_names(fn).get(e.id, []) if v is not None]
             anns = [self.expr_ann(v, fn, cls, mod, depth + 1) for v in vals]
             if anns and all(x is not None for x in anns) and len({ast.dump(x) for x in anns}) == 1:
@@ -275,6 +287,7 @@ class Typer:
                     return self.tags(dflt, fn, cls, mod, depth + 1)
             if not any(p.arg == e.id for p in pos + a.kwonlyargs):
                 anns = [n.annotation for n in A.body_nodes(fn) if isinstance(n, ast.AnnAssign) and isinstance(n.target, ast.Name) and n.target.id == e.id]
+                anns += [_local_annotation(n, e.id) for n in A.body_nodes(fn) if _local_annotation(n, e.id) is not None]
                 if not anns:
                     vals = [v for v in A.assigned_names(fn).get(e.id, []) if v is not None]
                     if vals:
